@@ -343,6 +343,7 @@ func runC20(c *Ctx) {
 		return
 	}
 	c.Obs("concurrent_histories", conc)
+	c.Heavy()
 	var wg sync.WaitGroup
 	for g := 0; g < conc; g++ {
 		rr := gen.New(r.U64())
